@@ -324,8 +324,9 @@ func fmaVars(c C03Case) (z, x, y, u *decimal.Decimal, alias string) {
 // fmaProductOutOfRange: the exact product's exponent lies outside [MinExp, MaxExp]
 // although every operand is in range (known finding F-03c).
 func fmaProductOutOfRange(c C03Case) bool {
-	if c.X.F != "f" || c.Y.F != "f" || c.U.F == "z" {
-		// (with a zero addend FMA is Mul, which rounds the product correctly at the range ends too)
+	if c.X.F != "f" || c.Y.F != "f" || c.U.F != "f" {
+		// (with a zero addend FMA is Mul, which rounds the product correctly at the range ends too; with an
+		// infinite addend the result is the addend, F-03d)
 		return false
 	}
 	s := c.X.E + c.Y.E
